@@ -141,6 +141,52 @@ def rseries(it, items, days=None):
         ex.attrs["max"] = BoundBuiltin(emax)
         return ex
 
+    def rolling(i, a, k):
+        w = a[0] if a else k.get("window")
+        if not (is_num(w) and w.is_const()):
+            raise NotInFragment("rolling window that is not a constant")
+        w = int(w.const_value())
+        mp = k.get("min_periods", a[1] if len(a) > 1 else None)
+        mp = w if mp is None else int(mp.const_value())
+        ro = Obj("Rolling", name="rolling", attrs={})
+
+        def agg(kind):
+            def f(i2, a2, k2):
+                out = []
+                xs_all = s.attrs["items"]
+                for j in range(len(xs_all)):
+                    xs = _skip(xs_all[max(0, j - w + 1):j + 1])
+                    if len(xs) < max(mp, 1):
+                        out.append(NAN)
+                        continue
+                    if kind in ("max", "min"):
+                        best = xs[0]
+                        for x in xs[1:]:
+                            if i2.decide_num(x, ast.Gt() if kind == "max" else ast.Lt(), best):
+                                best = x
+                        out.append(best)
+                    else:
+                        t = num(0)
+                        for x in xs:
+                            t = t + x
+                        out.append(t if kind == "sum" else t / num(len(xs)))
+                return new(out)
+            return f
+        for kind in ("max", "min", "sum", "mean"):
+            ro.attrs[kind] = BoundBuiltin(agg(kind))
+        return ro
+
+    def cummax(i, a, k):
+        out, best = [], None
+        for x in s.attrs["items"]:
+            if x is NAN:
+                out.append(NAN)
+                continue
+            if best is None or i.decide_num(x, ast.Gt(), best):
+                best = x
+            out.append(best)
+        return new(out)
+
     idx = Obj("Index", name="index", attrs={})
 
     def idx_get(i, a, k):
@@ -161,7 +207,7 @@ def rseries(it, items, days=None):
         "__binop__": BoundBuiltin(binop), "__compare__": BoundBuiltin(cmp_), "__getitem__": BoundBuiltin(getitem),
         "__len__": BoundBuiltin(lambda i, a, k: num(n)), "sum": BoundBuiltin(total), "prod": BoundBuiltin(prod), "count": BoundBuiltin(count),
         "mean": BoundBuiltin(mean), "std": BoundBuiltin(std), "min": BoundBuiltin(ext("min")), "max": BoundBuiltin(ext("max")),
-        "cumprod": BoundBuiltin(cumprod), "fillna": BoundBuiltin(fillna), "expanding": BoundBuiltin(expanding), "index": idx,
+        "cumprod": BoundBuiltin(cumprod), "fillna": BoundBuiltin(fillna), "expanding": BoundBuiltin(expanding), "rolling": BoundBuiltin(rolling), "cummax": BoundBuiltin(cummax), "index": idx,
         "shape": (num(n),),
     })
     return s
@@ -286,7 +332,43 @@ def check_ratio_formulas(repo: Repo, rep, tier: str):
                     if helper == "max_drawdown" and _num(got, smp) > 1e-12:
                         rep.violation(rid, "max_drawdown|positive", f"max_drawdown is positive ({_num(got, smp)}) for returns {vals}")
                     rep.instance(rid, key, {"returns": [str(x) for x in vals], "value": str(got)[:120]} if n_inst % 40 == 1 else None)
-    rep.floor(rid, 60)
+    # ---- a history longer than a year: the running peak is the peak since the START, however long ago (a steady decline of 400 days:
+    # the trough lies more than 365 samples after the peak).  Returns are written g_t - 1, so the equity curve is a monomial in the g_t
+    NL = 400
+    smpL = {f"g{j + 1}": F(199, 200) for j in range(NL)}
+    gs = [A(f"g{j + 1}") for j in range(NL)]
+    totalL = num(1)
+    for g in gs:
+        totalL = totalL * g
+    wantL = {"max_drawdown": totalL - num(1)}
+    cagrL = _pow(totalL, num(F(365, NL))) - num(1)
+    wantL["calmar_ratio"] = cagrL / (num(1) - totalL)
+    for helper, ref in wantL.items():
+        def mkL(dec, helper=helper):
+            it = Interp(repo, stubs=W.base_stubs(), samples=[dict(smpL)], decisions=dec, ext_stubs=dict(EXT))
+            ser = rseries(it, [NAN] + [g - num(1) for g in gs], days=list(range(NL + 1)))
+            fn = repo.func(METRICS, helper)
+            return it, lambda it: it.call(FuncV(fn, repo.module(METRICS), qual=helper), [ser], {})
+        try:
+            outs = explore(mkL, 8)
+        except NotInFragment as e:
+            raise AnalysisError(f"{helper}: outside the modelled pandas fragment: {e}")
+        for out in outs:
+            n_inst += 1
+            if out.kind != "return":
+                rep.violation(rid, f"{helper}|raises", f"{helper} raises {out.value} on a {NL}-day decline")
+                continue
+            v = out.value
+            got = v.attrs["items"][0] if isinstance(v, Obj) and v.cls == "Series" and v.attrs.get("items") else v
+            if not is_num(got):
+                raise AnalysisError(f"{helper}: result {got!r} is not a number on the {NL}-day series")
+            if not got.same(ref):
+                gv, rv = _num(got, smpL), _num(ref, smpL)
+                if abs(gv - rv) > 1e-9 * max(1.0, abs(gv), abs(rv)):
+                    rep.violation(rid, f"{helper}|long-history", f"{helper} on a steady decline of {NL} days (every daily return -0.5 %) is {gv:.6g}, its definition - the fall from the "
+                                                                   f"peak since the START of the series - gives {rv:.6g}: the running peak forgets what lies more than a year back")
+            rep.instance(rid, f"{helper}|N={NL}|steady-decline", {"value": str(got)[:80]})
+    rep.floor(rid, 62)
 
 
 def _num(r, env) -> float:
